@@ -3,7 +3,7 @@
     For every reference [r] stored before the swap and every choice function
     [c] (child index per LEVEL): the interpretation of [r] in the new table
     under [c] with the entries of the two levels exchanged equals the
-    interpretation in the old table under [c].  BDD kind. *)
+    interpretation in the old table under [c].  BDD and MTBDD kinds ([bink]). *)
 
 From Coq Require Import List NArith PArith Bool Arith Lia FMapPositive.
 From OxiVerif Require Import DD.Table DD.TableProofs DD.Canon Mgr.SortOrder Mgr.SortOrderProofs
@@ -20,7 +20,7 @@ Section Sem.
 Variable s : snap.
 Variable i : nat.
 Hypothesis H : WF s.
-Hypothesis Hk : s_kind s = KBdd.
+Hypothesis Hk : bink (s_kind s).
 Hypothesis Hi : S i < nlevels s.
 
 Let s1 := level_swap_core s i.
@@ -66,7 +66,7 @@ Proof.
   destruct (bdd_children s H Hk id nd E) as [c0 [c1 [Hch Hne]]].
   pose proof (wf_level s H id nd E) as Hlv.
   rewrite (rlevel_node s id nd E) in Hm.
-  assert (Hb : c (nlevel nd) < 2) by (specialize (Hc (nlevel nd)); rewrite Hk in Hc; exact Hc).
+  assert (Hb : c (nlevel nd) < 2) by (specialize (Hc (nlevel nd)); rewrite (bink_arity _ Hk) in Hc; exact Hc).
   (* the induction hypothesis for everything strictly below the node *)
   assert (IH' : forall r', ref_ok s r' -> nlevel nd < rlevel s r' ->
                    semn s1 r' (swap_choice i c) = semn s r' c).
@@ -85,7 +85,7 @@ Proof.
       as [d0 [d1 [e0 [e1 [Hd [Hf [R0 R1]]]]]]].
     rewrite Hch in Hd. inversion Hd; subst d0 d1. clear Hd.
     set (b2 := c (S i)).
-    assert (Hb2 : b2 < 2) by (unfold b2; specialize (Hc (S i)); rewrite Hk in Hc; exact Hc).
+    assert (Hb2 : b2 < 2) by (unfold b2; specialize (Hc (S i)); rewrite (bink_arity _ Hk) in Hc; exact Hc).
     destruct (dep_lows s i H Hk Hi id nd c0 c1 E (conj Dl Dd) Hch) as [L00 [L10 [L01 L11]]].
     rewrite (cof_sem id nd cb c b2 E Dl Hin Hb2 eq_refl).
     assert (Hsw : swap_choice i c (S i) = c (nlevel nd)).
